@@ -1414,10 +1414,11 @@ class FileStorage(
         return FileIterator(self._file_name, start, stop)
 
     def lastInvalidations(self, count):
-        file = self._file
-        seek = file.seek
-        read = file.read
         with self._lock:
+            # (under the lock: a pack replaces and closes self._file)
+            file = self._file
+            seek = file.seek
+            read = file.read
             pos = self._pos
             while count > 0 and pos > 4:
                 count -= 1
